@@ -15,18 +15,24 @@ LEAN_TARGETS = ["Asynkit.Props.C08", "Asynkit.Lemmas.GenEqC08", "Asynkit.Lemmas.
 PROPS_FILES = ["Asynkit/Props/C08.lean", "Asynkit/Lemmas/GenEqC08.lean", "Asynkit/Lemmas/GenEqSched.lean", "Asynkit/Lemmas/GenEqPosPQ.lean", "Asynkit/Lemmas/GenEqPQ.lean"]
 DRIVERS = ["Sched"]
 TRUSTED = [
-    "Lean 4.33 kernel; axioms ⊆ {propext, Classical.choice, Quot.sound} (audited per theorem each run)",
-    "hand-written models Asynkit/Model/{Deque,Sched}.lean (+ the container models Heap/PQ/PosPQ), tied to "
-    "src/asynkit/{scheduling.py,tools.py,loop/default.py,loop/eventloop.py,loop/extensions.py,"
-    "experimental/priority.py} by the differential correspondence of this run (lean/Drivers/Sched.lean)",
-    "translator/py2lean.py regenerates Asynkit/Gen/Sched.lean from the source on every run (deque_pop, queue_find, "
-    "call_pos statement by statement); Lemmas/GenEqC08.lean proves them equal to the Model/Deque definitions",
-    "modelled, not verified: collections.deque rotate/popleft/pop/append/remove/insert (remove takes the first "
-    "equal element, insert clamps like list.insert); asyncio call_soon appends one Handle, Task.__step "
-    "re-schedules itself with call_soon on a bare yield, _run_once pops handles from the left; "
-    "Future.set_result call_soon's the waiter's wakeup",
-    "CPython heapq meets its documented contract (HeapLib.Lawful hypothesis of listLike_priority_loop)",
-    "the RLock added around PosPriorityQueue operations is not modelled (single-threaded semantics; C18)",
+    'Lean 4.33 kernel; axioms ⊆ {propext, Classical.choice, Quot.sound} (audited per theorem each run)',
+    'hand-written and tied only by the differential correspondence of this run (lean/Drivers/Sched.lean): '
+    "asyncio's stepping inside Asynkit/Model/Sched.lean (call_soon, Task.__step re-scheduling, _run_once) and the"
+    ' program interpreter; the coroutine halves of sleep_insert/task_switch/create_task_* after their suspension '
+    'point',
+    'translated, not trusted: deque_pop, queue_find, call_pos (translator/py2lean.py -> Gen/Sched.lean; '
+    'Lemmas/GenEqC08.lean, 3 theorems); _task_reinsert, task_reinsert, sleep_insert, task_switch, '
+    "create_task_descend/start up to their suspension point, the ready_* wrappers and the three loop classes' "
+    'queue methods (translator/sched2lean.py -> Gen/SchedOps.lean; Lemmas/GenEqSched.lean, 18 theorems); the '
+    "priority loop's containers PosPriorityQueue / PriorityQueue (pospq2lean.py, pq2lean.py; GenEqPosPQ 41, "
+    'GenEqPQ 29 theorems) - all re-translated from the source on every run and proved equal to '
+    'Model/{Deque,Sched,PosPQ,PQ}',
+    'modelled, not verified: collections.deque rotate/popleft/pop/append/remove/insert (remove takes the first '
+    'equal element, insert clamps like list.insert); asyncio call_soon appends one Handle, Task.__step '
+    're-schedules itself with call_soon on a bare yield, _run_once pops handles from the left; Future.set_result '
+    "call_soon's the waiter's wakeup",
+    'CPython heapq meets its documented contract (HeapLib.Lawful hypothesis of listLike_priority_loop)',
+    'the RLock added around PosPriorityQueue operations is not modelled (single-threaded semantics; C18)',
 ]
 ASSUMPTIONS = [
     "a handle is queued at most once at a time (programs never re-insert a handle that is still queued)",
@@ -35,7 +41,7 @@ ASSUMPTIONS = [
     "no timers, I/O or cancellation in the programs (ready queue only)",
 ]
 RULE = ("case = (multi-task program over {sleep0, sleep_insert p, task_switch t [p], task_reinsert t p, call_pos p, "
-        "call_soon, call_pos(task_reinsert) , create_task, create_task_descend, create_task_start, ready_find / "
+        "call_soon, call_soon(task.set_name) [a callback bound to a task], call_pos(task_reinsert), create_task, create_task_descend, create_task_start, ready_find / "
         "find+remove+insert / remove+insert, block/wake, queue_items}, loop configuration) or (deque primitive, length, "
         "position); programs are drawn at random (2-6 tasks, positions 0..len+8, targets in every state) and, in the "
         "thorough tier, enumerated exhaustively for two tasks of up to two ops; non-trivial = the run itself hit a "
@@ -148,6 +154,42 @@ def ref_dq(line):
         l.insert(int(t[3]), n)
         return f"ok {show(l)}"
     return "bad-op"
+
+
+def check_find_while_appending(ctx, maxlen=12):
+    """queue_find(remove=True) while something is appended to the live queue during the search (what
+    `call_soon_threadsafe` from another thread does, and what the helpers are written to tolerate): here
+    the key function itself appends on its first call — no threads, no timing.  Oracle only (the Lean
+    model has pure keys): the found element is the one asked for, exactly it is removed, the appended
+    element is kept, nothing else moves."""
+    from asynkit.loop import default
+    n_cases = 0
+    for n in range(1, maxlen + 1):
+        for x in range(n):
+            for rm in (True, False):
+                d = deque(range(n))
+                fired = []
+
+                def key(v):
+                    if not fired:
+                        fired.append(1)
+                        d.append(n)
+                    return v == x
+                try:
+                    h = default.queue_find(d, key, rm)
+                    obs = f"found {h} {show(d)}"
+                except Exception as e:  # noqa: BLE001
+                    obs = f"exc {type(e).__name__}"
+                exp = f"found {x} " + show([v for v in range(n) if not (rm and v == x)] + [n])
+                n_cases += 1
+                case = f"findappend {n} {x} {int(rm)}"
+                ctx.case(case, ["dq-find-while-appending"])
+                if obs != exp:
+                    ctx.violation("deque:find-while-appending",
+                                  f"queue_find(key = (== {x}), remove={rm}) on deque(range({n})) while an element is "
+                                  f"appended during the search does not remove exactly the found element",
+                                  {"dq": case}, expected=exp, observed=obs, theorem="Asynkit.C08.queueFind_spec")
+    ctx.extra["find_while_appending_cases"] = n_cases
 
 
 def check_deque(ctx, maxlen):
@@ -318,7 +360,7 @@ def corpus_cases():
 
 SMALL_ALPHA = [["sleep0"], ["si", 0], ["si", 1], ["si", 3], ["sw", 0, None], ["sw", 1, None], ["sw", 1, 1],
                ["sw", 0, 0], ["ri", 1, 0], ["ri", 0, 2], ["cp", 0, 7], ["cp", 2, 8], ["cs", 9], ["de", 2],
-               ["st", 2], ["me", 1], ["bl"], ["wk", 1]]
+               ["st", 2], ["me", 1], ["bl"], ["wk", 1], ["cm", 1, 6]]
 
 
 def exhaustive_small(maxops):
@@ -337,6 +379,7 @@ def exhaustive_small(maxops):
 def run(ctx):
     rng = ctx.rng
     check_deque(ctx, 64)
+    check_find_while_appending(ctx)
     explore(ctx, corpus_cases(), label="corpus: ")
     if ctx.thorough():
         n_rand, n_long = 12000, 600
@@ -349,6 +392,9 @@ def run(ctx):
         explore(ctx, progs[i:i + 2000])
     progs = [S.gen_program(rng, "c08", n_tasks=rng.randint(3, 6), long=True) for _ in range(n_long)]
     explore(ctx, progs, label="long: ")
+    progs = [S.gen_bound(rng) for _ in range(n_long * 2)]
+    ctx.sample(progs[0])
+    explore(ctx, progs, label="bound-method callbacks: ")
     if ctx.thorough():
         batch, n = [], 0
         for p in exhaustive_small(2):
@@ -363,6 +409,9 @@ def run(ctx):
 
 def replay(ctx, data):
     case = data["case"]
+    if "dq" in case and case["dq"].startswith("findappend"):
+        check_find_while_appending(ctx)
+        return
     if "dq" in case:
         ln = case["dq"]
         r, e = real_dq(ln), ref_dq(ln)
